@@ -35,6 +35,9 @@ Check(t) ==
     \* a second training phase with the SAME callback object and a fresh Trainer: the final file holds the weights after it
     ELSE IF t.files2.final = <<>> \/ Q(t.files2.final[1]) # Q(t.phase2.a) \/ Q(t.files2.final[2]) # Q(t.phase2.b) THEN "final-weights-file-after-second-phase"
     \* the weight files of the RESUMED run: final = the reference after N steps; minimum-loss = a checked step after the resume
+    \* ... initial = the weights the resumed training starts from, i.e. the reference after `kill` steps
+    ELSE IF "filesr" \in DOMAIN t /\ "init" \in DOMAIN t.filesr /\ (t.filesr.init = <<>> \/ Q(t.filesr.init[1]) # After(cfg, cfg.kill).a \/ Q(t.filesr.init[2]) # After(cfg, cfg.kill).b)
+         THEN "initial-weights-file-of-resumed-run"
     ELSE IF "filesr" \in DOMAIN t /\ (t.filesr.final = <<>> \/ Q(t.filesr.final[1]) # want.a \/ Q(t.filesr.final[2]) # want.b) THEN "final-weights-file-of-resumed-run"
     ELSE IF "filesr" \in DOMAIN t /\ t.filesr.min_loss # <<>> /\ ~\E b \in Checked(cfg) : b >= cfg.kill /\ Q(t.filesr.min_loss[1]) = After(cfg, b).a /\ Q(t.filesr.min_loss[2]) = After(cfg, b).b
          THEN "min-loss-file-of-resumed-run-is-not-a-checked-step"
